@@ -137,9 +137,10 @@ Fixpoint o_walk (next : nat) (svs : list (nat * osv)) (evs : list sev) : bool :=
               let cnt := counted (o_num s) (o_got s) [] in
               let complete := length (distinct (map fst cnt) []) =? o_num s in
               negb (o_returned s) && prompt &&
-              (* at most one result per node, only from responses to THIS survey, the latest value of each *)
+              (* at most one result per node, each of them a response to THIS survey from that node
+                 (which of several duplicates is kept is not fixed by the property) *)
               nodup_keys res &&
-              forallb (fun e => match last_of (fst e) cnt None with Some v => N.eqb v (snd e) | None => false end) res &&
+              forallb (fun e => existsb (fun d => N.eqb (fst d) (fst e) && N.eqb (snd d) (snd e)) cnt) res &&
               (* complete: every expected node is in the result and there is no error unless the context
                  was cancelled as well; not complete: it may only return because the deadline passed *)
               (if complete then (length res =? o_num s) && (negb err || o_cancelled s)
